@@ -63,6 +63,7 @@ type c11bEntry struct {
 	file       string
 	stale      bool
 	name       string // journal file name
+	uq         string // the uniquifier the name carries ("" = none)
 }
 
 func (e c11bEntry) String() string {
@@ -368,11 +369,13 @@ func (t *c11bTree) entryFor(c *Ctx, n, f int, job string, chunk int, file string
 	if runFile == "" {
 		return e, false
 	}
+	e.uq = u
 	if stale {
 		if u != "" {
 			runFile = strings.TrimSuffix(runFile, ".u"+u)
 		}
-		runFile += ".u" + c11Uniq(c)
+		e.uq = c11Uniq(c)
+		runFile += ".u" + e.uq
 	}
 	prefix := map[string]string{"split": "split_", "join": "join_"}[job]
 	e.name = path.Base(runFile) + "." + prefix + file
@@ -754,6 +757,63 @@ func c11bCheckBatch(c *Ctx, t *c11bTree, enc string, batch []c11bEntry) {
 				What:  "the model's routeBatch / deliver of a journal name written by a job does not name the writing job",
 				Input: map[string]interface{}{"tree": t.name, "entry": e.String(), "node": nd.fqid, "fork_name": fk.jname, "chunks": fk.nchunks},
 				Model: map[string]string{"route": model[i].route, "deliver": model[i].deliver}, Broken: "routeBatch_roundtrip / deliver_roundtrip"})
+		}
+	}
+	// (a') the hypotheses of the batch theorems (ValidJob of every record, distinct node ids), evaluated by the
+	// driver on this real batch, and JobRec.name / JName.render against the name the real writer produced
+	{
+		var recs []string
+		var jobs []c11bEntry
+		var rreqs [][]string
+		for _, e := range batch {
+			if e.job == "" {
+				continue
+			}
+			nd := t.nodes[e.node]
+			fk := nd.forks[e.fork]
+			slot := map[string]string{"fork": "o", "split": "s", "join": "j"}[e.job]
+			ch := "-"
+			w := core.WidthForChunks(fk.nchunks)
+			if e.job == "chunk" {
+				slot = "c" + strconv.Itoa(e.chunk)
+				ch = hx(fmt.Sprintf("%0*d", w, e.chunk))
+			}
+			recs = append(recs, strings.Join([]string{strconv.Itoa(e.node), strconv.Itoa(e.fork), slot, hx(e.uq), hx(e.file), hx(nd.path), hx(fk.jname), strconv.Itoa(w)}, ","))
+			jobs = append(jobs, e)
+			prefix := map[string]string{"split": "split_", "join": "join_"}[e.job]
+			rreqs = append(rreqs, []string{"C11.render", hx(nd.path), hx(fk.jname), ch, hx(e.uq), hx(prefix + e.file)})
+		}
+		if len(recs) > 0 {
+			rep := strings.Split(c.Drv.Ask("C11.validbatch", hx("ID."+t.psid), enc, strings.Join(recs, ";")), ";")
+			if len(rep) != len(recs)+1 {
+				r.violate(Violation{Kind: "correspondence", Key: "C11:batch-validjob-reply", What: "driver did not evaluate the batch hypotheses", Input: recs, Model: rep})
+			} else {
+				if rep[0] == "1" {
+					r.hist("batch_hyp_node_ids_nodup_holds")
+				} else {
+					r.hist("batch_hyp_node_ids_nodup_fails")
+					r.violate(Violation{Kind: "correspondence", Key: "C11:batch-hypothesis-fails:node-ids", What: "the node ids of a real tree are not pairwise distinct: the batch theorems do not cover it",
+						Input: map[string]interface{}{"tree": t.name, "program": t.src}, Broken: "hypothesis hnd of routeBatch_roundtrip / creditTable_exact"})
+				}
+				renders := c.Drv.AskBatch(rreqs)
+				for i, e := range jobs {
+					f := strings.SplitN(rep[i+1], ":", 2)
+					if f[0] == "1" {
+						r.hist("batch_hyp_validjob_holds")
+					} else {
+						r.hist("batch_hyp_validjob_fails")
+						r.violate(Violation{Kind: "correspondence", Key: "C11:batch-hypothesis-fails:validjob",
+							What:  "a journal entry written by a job of the tree is not a ValidJob record of the model: the batch theorems do not cover it",
+							Input: map[string]interface{}{"tree": t.name, "entry": e.String(), "record": recs[i]}, Broken: "hypothesis hv of routeBatch_roundtrip / creditTable_exact"})
+					}
+					if len(f) != 2 || unhx(f[1]) != e.name || unhx(renders[i]) != e.name {
+						r.violate(Violation{Kind: "correspondence", Key: "C11:batch-render-model-mismatch",
+							What:  "the journal file name the real job-side writer produced differs from the model's JobRec.name / JName.render",
+							Input: map[string]interface{}{"tree": t.name, "entry": e.String(), "record": recs[i]}, Impl: e.name,
+							Model: map[string]string{"JobRec.name": unhx(f[len(f)-1]), "render": unhx(renders[i])}, Broken: "correspondence C11.render / JobRec.name"})
+					}
+				}
+			}
 		}
 	}
 	// (b) the real cycle
